@@ -82,10 +82,37 @@ def _segment_paths(rb):
     (common.segment_streams: loops, comprehensions, nested generators, pre-filters of the source are one normal form)"""
     from .common import segment_streams
     streams = [st for st in segment_streams(rb) if any(e is not None for _d, e in st[1])]
-    if len(streams) != 1:
-        raise AnchorVanished(f"{rb.fq}: expected exactly one loop / comprehension turning the (text, style, is_control) segments into output pieces, found {len(streams)}")
-    src, paths, anchor = streams[0]
-    return src, ["TEXT", "STYLE", "CTRL"], paths, anchor
+    if not streams:
+        raise AnchorVanished(f"{rb.fq}: no loop / comprehension turning the (text, style, is_control) segments into output pieces was found")
+    if len(streams) == 1:
+        src, paths, anchor = streams[0]
+        return src, ["TEXT", "STYLE", "CTRL"], paths, anchor
+    # several emitters, one per case (a fast path, a terminal / file split): each runs under the branch facts of its own statement;
+    # together they are one emitter whose paths carry those facts
+    from ..yieldpaths import canon_test
+    g = cfgmod.build(rb.node)
+    srcs = {norm(st[0]) for st in streams}
+    if len(srcs) != 1:
+        raise AnchorVanished(f"{rb.fq}: {len(streams)} emitters over different sources {sorted(srcs)}; not one segment stream")
+    merged = []
+    from ..astutil import inline as _inl_sp, single_defs as _sdf_sp
+    sd_sp = _sdf_sp(rb.node)
+    rb._emitters = []
+    for src, paths, anchor in streams:
+        st_ = anchor
+        while not isinstance(st_, ast.stmt):
+            st_ = rb.module.parent_of[st_]
+        outer = {}
+        for nid in g.nodes_of(st_):
+            for t, v in g.branch_facts(nid):
+                for a, tv in canon_test(_inl_sp(t, sd_sp), v):
+                    outer[a] = tv
+        rb._emitters.append((anchor, outer))
+        for d, e in paths:
+            dd = dict(outer)
+            dd.update(d)
+            merged.append((dd, e))
+    return streams[0][0], ["TEXT", "STYLE", "CTRL"], merged, streams[0][2]
 
 
 def r3_2(ctx):
@@ -137,6 +164,17 @@ def r3_3(ctx):
     g = cfgmod.build(rb.node)
     rd = g.reaching_defs(weak=False)
     src, _names, _paths, anchor = _segment_paths(rb)
+    # with several emitters the clause concerns those that can run while a colour system is set (a fast path for `color_system is
+    # None` writes no colour at all); the last of them in the text is the one the strip must reach
+    ems = getattr(rb, "_emitters", None)
+    if ems:
+        live = [a_ for a_, outer_ in ems if outer_.get("self._color_system is None") is not True and outer_.get("self._color_system") is not False and outer_.get("self._color_system is not None") is not False]
+        if not live:
+            raise AnalysisError(f"{rb.fq}: no emitter can run with a colour system set")
+        anchor = live[-1]
+        other_live = live[:-1]
+    else:
+        other_live = []
     anchor_stmt = anchor
     while not isinstance(anchor_stmt, ast.stmt):
         anchor_stmt = rb.module.parent_of[anchor_stmt]
@@ -163,6 +201,11 @@ def r3_3(ctx):
         facts = g.branch_facts(s.id)
         cond_ok = any(v is True and "self.no_color" in norm(t) for t, v in facts)
         reach = any(s.id in rd.get(u, {}).get(var, set()) for u in use_nodes)
+        for a_ in other_live:
+            st2 = a_
+            while not isinstance(st2, ast.stmt):
+                st2 = rb.module.parent_of[st2]
+            reach = reach and any(s.id in rd.get(u, {}).get(var, set()) for u in g.nodes_of(st2))
         arg_ok = norm(s.stmt.value.args[0]) == var
         # every path entry->loop on which no_color and color_system hold passes the strip: the If has no else
         ifn = rb.module.parent_of.get(s.stmt)
